@@ -92,6 +92,31 @@ def data_text(fmt, data):
     return stream.getvalue()
 
 
+def data_file(fmt, data, folder):
+    """The data row (twice) as a spreadsheet file of the CID's format; None if the producer cannot store the text."""
+    os.makedirs(folder, exist_ok=True)
+    if fmt == "excel":
+        import xlsxwriter
+        path = os.path.join(folder, "data_%d.xlsx" % os.getpid())
+        try:
+            workbook = xlsxwriter.Workbook(path, {"strings_to_numbers": False, "strings_to_formulas": False, "strings_to_urls": False})
+            sheet = workbook.add_worksheet()
+            for y in range(2):
+                for x, cell in enumerate(data):
+                    if cell != "":
+                        if sheet.write_string(y, x, cell) != 0:
+                            workbook.close()
+                            return None
+            workbook.close()
+        except Exception:  # noqa
+            return None
+        return path
+    from harness import odslib
+    path = os.path.join(folder, "data_%d.ods" % os.getpid())
+    odslib.write_ods(path, odslib.content_xml([odslib.plain_sheet([data, data])]))
+    return path
+
+
 def classify(error):
     from cutplace import errors
     if isinstance(error, errors.InterfaceError):
@@ -135,6 +160,36 @@ def _job(job):
         except Exception as error:  # noqa
             if classify(error) != "DataError":
                 problems.append("%s: validate() lets escape %s for data %r" % (what, classify(error)[6:], text))
+    if cid_outcome == "ok" and fmt in ("excel", "ods") and any(t["where"] == "data" for t in vec["targets"]):
+        # the hostile text as a cell of a real spreadsheet file
+        folder = core.workdir("c10sheet%d" % os.getpid())
+        try:
+            path = data_file(fmt, data, folder)
+            if path is not None:
+                for mode in ("yield", "raise"):
+                    try:
+                        for item in cutplace.rows(cid, path, on_error=mode):
+                            if isinstance(item, Exception) and classify(item) != "DataError":
+                                problems.append("%s: rows() yields %s for the %s cell %r" % (what, classify(item), fmt, data[0]))
+                    except Exception as error:  # noqa
+                        if classify(error) != "DataError":
+                            problems.append("%s: rows(on_error=%s) lets escape %s for the %s cell %r under CID %r" % (
+                                what, mode, classify(error)[6:], fmt, data[0], rows))
+                from cutplace import applications
+                cid_path = os.path.join(folder, "cid.csv")
+                if not any("\x00" in cell for row in rows for cell in row):
+                    with open(cid_path, "w", newline="", encoding="utf-8") as cid_file:
+                        csv.writer(cid_file).writerows(rows)
+                    try:
+                        code = applications.main(["cutplace", cid_path, path])
+                    except SystemExit as error:
+                        code = error.code
+                    except Exception as error:  # noqa
+                        code = "exception %s: %s" % (type(error).__name__, error)
+                    if code not in (0, 1, 2, 3):
+                        problems.append("%s: the command line answers %r for the %s cell %r" % (what, code, fmt, data[0]))
+        finally:
+            core.cleanup(folder)
     return problems
 
 
@@ -214,6 +269,59 @@ def corrupted_containers(report, tier):
 corrupted_containers.seen = {}
 
 
+def native_excel_cells(report):
+    """
+    Cells a workbook can hold that have no text of their own: date serials outside the calendar (negative, the ambiguous
+    first two months of 1900, beyond year 9999), error values, formulas, huge numbers. Reading must give rows or a
+    data-format error, directly and through a CID with every field type.
+    """
+    import cutplace
+    import xlsxwriter
+    from cutplace import errors, rowio
+    folder = core.workdir("c10native")
+    path = os.path.join(folder, "native.xlsx")
+    serials = [-1, -0.5, 0, 0.25, 1, 59, 60, 60.5, 61, 2958465, 2958465.99999, 2958466, 3000000, 1e10, 1e300]
+    cases = [("date serial %r" % v, lambda ws, wb, v=v: ws.write_number(0, 0, v, wb.add_format({"num_format": "yyyy-mm-dd"})))
+             for v in serials]
+    cases += [("date-time serial %r" % v, lambda ws, wb, v=v: ws.write_number(0, 0, v, wb.add_format({"num_format": "yyyy-mm-dd hh:mm:ss"})))
+              for v in serials]
+    cases += [("time serial %r" % v, lambda ws, wb, v=v: ws.write_number(0, 0, v, wb.add_format({"num_format": "hh:mm:ss"})))
+              for v in serials]
+    cases += [("error value %s" % e, lambda ws, wb, e=e: ws.write_formula(0, 0, "=NA()", None, e))
+              for e in ("#DIV/0!", "#N/A", "#NAME?", "#NULL!", "#NUM!", "#REF!", "#VALUE!")]
+    cases += [("formula with number result", lambda ws, wb: ws.write_formula(0, 0, "=1+1", None, 2)),
+              ("formula with text result", lambda ws, wb: ws.write_formula(0, 0, '="a"&"b"', None, "ab")),
+              ("formula with boolean result", lambda ws, wb: ws.write_formula(0, 0, "=TRUE()", None, True)),
+              ("formatted blank", lambda ws, wb: (ws.write_blank(0, 0, None, wb.add_format({"bold": True})), ws.write_string(0, 1, "x"))),
+              ("largest float", lambda ws, wb: ws.write_number(0, 0, 1.7976931348623157e308)),
+              ("smallest float", lambda ws, wb: ws.write_number(0, 0, 5e-324)),
+              ("negative zero", lambda ws, wb: ws.write_number(0, 0, -0.0))]
+    try:
+        for label, fill in cases:
+            workbook = xlsxwriter.Workbook(path)
+            fill(workbook.add_worksheet(), workbook)
+            workbook.close()
+            readers = [("rowio.excel_rows", lambda: list(rowio.excel_rows(path)))]
+            for field_type in sorted(RULES):
+                cid = cutplace.Cid()
+                cid.read("cid", [["D", "Format", "excel"], ["F", "target", "", "" if field_type == "Constant" else "X", "", field_type, RULES[field_type]], ["F", "other", "", "X"]])
+                readers.append(("rows() under a %s field" % field_type, lambda cid=cid: list(cutplace.rows(cid, path, on_error="yield"))))
+            for name, read in readers:
+                report.replayed += 1
+                try:
+                    for item in read():
+                        if isinstance(item, Exception) and classify(item) != "DataError":
+                            raise item
+                except errors.DataError:
+                    pass
+                except Exception as error:  # noqa
+                    report.violation("c10", {"container": "xlsx", "native": label}, "rows or DataError", None,
+                                     "Excel cell with %s: %s lets escape %s: %s" % (label, name, type(error).__name__, str(error)[:200]))
+                    break
+    finally:
+        core.cleanup(folder)
+
+
 def replay(behaviour, report=None):
     core.import_repo()
     if "container" in behaviour:
@@ -270,6 +378,10 @@ def run(tier, report):
     finally:
         core.cleanup(folder)
     corrupted_containers(report, tier)
+    native_excel_cells(report)
+    report.notes["hostile_spreadsheet_cells"] = "%d hostile data cells were also stored in real .xlsx / .ods files and read through " \
+                                               "cutplace.rows (both modes) and the command line" % len(
+        [1 for vec, _ in jobs if vec["fmt"] in ("excel", "ods") and any(t["where"] == "data" for t in vec["targets"])])
     report.notes["escaped_exception_shapes"] = {str(k): v for k, v in sorted(shapes.items(), key=lambda kv: -kv[1])[:40]}
     report.exhaustive = tier == "quick"
     report.assumptions += [
